@@ -90,7 +90,7 @@ def op_coq(op):
     if k == 'cancel':
         return '(ACancel %s)' % coq_bytes(op[1])
     return {'get': 'AGet', 'ack': 'AAck', 'check': 'ACheck',
-            'process': 'AProcess', 'build': 'ABuild', 'stop': 'AStop',
+            'process': 'AProcess', 'start': 'AStart', 'build': 'ABuild', 'stop': 'AStop',
             'close': 'AClose', 'idle': 'AIdle'}[k]
 
 
@@ -126,7 +126,7 @@ WNAMES = {'Queue.Declare': 'WRequest 0', 'Queue.Bind': 'WRequest 1',
           'Basic.Cancel': 'WCancel', 'Basic.Ack': 'WAck',
           'Channel.Close': 'WChClose', 'Channel.CloseOk': 'WChCloseOk',
           'Channel.Open': 'WChOpen', 'Channel.FlowOk': 'WFlowOk',
-          'Connection.Close': 'WConnClose'}
+          'Connection.Close': 'WConnClose', 'Heartbeat': 'WRequest 98'}
 
 
 def written_coq(frames):
@@ -253,6 +253,11 @@ class Scenario(object):
                     ch._consumer_callbacks[t] = got.append
                 ch.process_data_events()
                 res = None
+            elif k == 'start':
+                for t in list(ch._consumer_callbacks):
+                    ch._consumer_callbacks[t] = got.append
+                ch.start_consuming()
+                res = None
             elif k == 'build':
                 for m in ch.build_inbound_messages(break_on_empty=True):
                     got.append(m)
@@ -268,12 +273,12 @@ class Scenario(object):
                 res = '(RMsgs %s)' % msgs_coq(got)
         except vrt.Deadlock:
             res = 'RHang'
-            if got and k in ('process', 'build'):
+            if got and k in ('process', 'build', 'start'):
                 res = '(RMsgsErr %s (Some hang_err))' % msgs_coq(got)
         except Exception as why:
             ec = err_coq(why)
             res = '(RErr %s)' % ec if ec else 'ROther'
-            if got and k in ('process', 'build'):
+            if got and k in ('process', 'build', 'start'):
                 # the messages handed out before the exception stay handed out
                 res = '(RMsgsErr %s %s)' % (msgs_coq(got), '(Some %s)' % ec if ec else 'None')
             if ec and 'EConn' in ec and self.fault_times:
@@ -282,7 +287,7 @@ class Scenario(object):
         self.br.step()
         written = [(cc, fr) for (_, cc, fr, _) in self.br.ledger_in[mark:]]
         # a request that was never written is never answered
-        if not written and op[0] not in ('idle', 'check', 'ack', 'process', 'build'):
+        if not written and op[0] not in ('idle', 'check', 'ack', 'process', 'build', 'start'):
             self.script = self.script[:max(0, len(self.script) - own)]
         late = any(l > 1.0 + 0.02 for l in self.latencies)
         if self.latencies:
